@@ -208,7 +208,22 @@ FamSeqN(n, thin) == LET ks == Picked(Pw(n) * Len(SeqInits), thin) IN
                          Case("seq", SeqOf(((k - 1) \div Len(SeqInits)) + 1, n), SeqInits[((k - 1) % Len(SeqInits)) + 1], 0)]
 FamSeq == FamSeqN(1, 1) \o FamSeqN(2, T(20)) \o FamSeqN(3, IF SeqLen >= 3 THEN 1 ELSE (3 * Thin) \div 2)
 
-AllCases == FamUn \o FamBin \o FamBinMixed \o FamBinStr \o FamShift \o FamPow \o FamTri \o FamModPow \o FamModPowBig \o FamTriMixed \o FamConv
+-----------------------------------------------------------------------------
+(* operand aliasing: Integer items are values - an instruction that computes on a COPY of a stack item (DUP / OVER / PICK
+   share the item in the implementation) must leave the other copies as they were.  Exhaustive in every tier. *)
+AliasInts == << I(0), I(1), I(-1), I(2), I(9), I(-7), I(10), P(63), BI!Sub(P(255), I(1)), BI!Neg(P(255)), RndBig(3, 5, FALSE) >>
+AliasInts2 == << I(0), I(1), I(-3), I(16), P(127), BI!Neg(P(255)) >>
+AliasInts3 == << I(0), I(2), I(-5), I(7), P(64) >>
+FamAliasUn == Prod2(<<"INVERT", "SIGN", "ABS", "NEGATE", "INC", "DEC", "SQRT", "NZ", "NOT">>, IntLits(AliasInts),
+                    LAMBDA o, x, i, j : Case("alias", <<Op("DUP"), Op(o)>>, <<x>>, 0))
+FamAliasBin == Prod3(BinOps \o <<"SHL", "SHR", "POW">>, IntLits(AliasInts2), IntLits(AliasInts2),
+                    LAMBDA o, x, y, i, j, l : Case("alias", <<Op("OVER"), Op("OVER"), Op(o)>>, <<x, y>>, 0))
+FamAliasTri == Prod4(<<"MODMUL", "MODPOW", "WITHIN">>, IntLits(AliasInts3), IntLits(AliasInts3), IntLits(AliasInts3),
+                    LAMBDA o, x, y, z, h, i, j, l : Case("alias", <<Op("PUSH2"), Op("PICK"), Op("PUSH2"), Op("PICK"), Op("PUSH2"), Op("PICK"), Op(o)>>,
+                                                         <<x, y, z>>, 0))
+FamAlias == FamAliasUn \o FamAliasBin \o FamAliasTri
+
+AllCases == FamAlias \o FamUn \o FamBin \o FamBinMixed \o FamBinStr \o FamShift \o FamPow \o FamTri \o FamModPow \o FamModPowBig \o FamTriMixed \o FamConv
             \o FamNewArrayT \o FamPushInt \o FamConst \o FamPushData \o FamStack0 \o FamStackN \o FamSlot
             \o FamNewBuffer \o FamCat \o FamSubstr \o FamLeftRight \o FamSpliceLong \o FamMemCpy
             \o FamKeyed \o FamRemove \o FamSetItem \o FamAppend \o FamMutate \o FamIdentity
